@@ -448,6 +448,22 @@ func (g *Gen) scopeAt(b *ssa.BasicBlock, edge *ssa.BasicBlock, st *State) map[st
 	for k, v := range g.params {
 		vars[k] = v
 	}
+	// hidden position of the (single) range-over-string/map iterator
+	var rng *ssa.Range
+	nr := 0
+	for _, bb := range g.fn.Blocks {
+		for _, in := range bb.Instrs {
+			if r, ok := in.(*ssa.Range); ok {
+				rng = r
+				nr++
+			}
+		}
+	}
+	if nr == 1 {
+		if rv, ok := g.vals[rng]; ok {
+			vars["rangepos"] = Val{S: sel(g.heapGet(st, "It"), rv.S), Sort: "Int", G: types.Typ[types.Int]}
+		}
+	}
 	// walk the dominator chain from the entry to b's immediate dominator
 	var chain []*ssa.BasicBlock
 	for d := b.Idom(); d != nil; d = d.Idom() {
